@@ -185,8 +185,19 @@ impl<T: HCfg> World<T> {
                 peers[i].game.corrupt_from = Some(f as i32);
             }
         }
+        // normalised configuration (every peer entry carries kind, locals, delay, host)
+        let mut ncfg = cfg.clone();
+        if let Some(ps) = ncfg.get_mut("peers").and_then(|v| v.as_array_mut()) {
+            for pc in ps.iter_mut() {
+                if let Some(o) = pc.as_object_mut() {
+                    o.entry("locals").or_insert(json!([]));
+                    o.entry("delay").or_insert(json!(0));
+                    o.entry("host").or_insert(json!(0));
+                }
+            }
+        }
         Ok(Self {
-            cfg: cfg.clone(),
+            cfg: ncfg,
             net,
             peers,
             step_no: 0,
